@@ -71,12 +71,38 @@ package transport_controller
 //@ lockinv Controller.bcast: forall u uint64 trigger dom(self.links, u) :: u in self.links ==> self.links[u].lnk != nil && self.links[u].di != nil
 //@ lockinv Controller.bcast: forall u uint64 trigger dom(self.links, u) :: u in self.links ==> self.links[u].lnk.GetUUID() == u
 
-// flushEstablishedLink (lock held by the caller): removes exactly el's entry from links; every other key is untouched.
+// Invariant (b): every element of linksByPeerID[p] is a non-nil established link whose remote peer
+// is p and which is the links entry of its UUID; (c) no element is listed twice; (d) the slices of
+// different peers have different backing arrays.
+//@ spec fun byPeerElem(c *Controller, p string, i int) bool = c.linksByPeerID[p][i] != nil && structobj(c.linksByPeerID[p][i]) && c.linksByPeerID[p][i].lnk != nil && c.linksByPeerID[p][i].lnk.GetRemotePeer() == p
+//@ spec fun byPeerBack(c *Controller, p string, i int) bool = (c.linksByPeerID[p][i].lnk.GetUUID() in c.links) && c.links[c.linksByPeerID[p][i].lnk.GetUUID()] == c.linksByPeerID[p][i]
+//@ lockinv Controller.bcast: forall p string, i int trigger self.linksByPeerID[p][i] :: (p in self.linksByPeerID) && 0 <= i && i < len(self.linksByPeerID[p]) ==> byPeerElem(self, p, i)
+//@ lockinv Controller.bcast: forall p string, i int trigger self.linksByPeerID[p][i] :: (p in self.linksByPeerID) && 0 <= i && i < len(self.linksByPeerID[p]) ==> byPeerBack(self, p, i)
+//@ lockinv Controller.bcast: forall p string, i int, j int trigger self.linksByPeerID[p][i], self.linksByPeerID[p][j] :: (p in self.linksByPeerID) && 0 <= i && i < j && j < len(self.linksByPeerID[p]) ==> self.linksByPeerID[p][i] != self.linksByPeerID[p][j]
+//@ lockinv Controller.bcast: forall p string, q string trigger dom(self.linksByPeerID, p), dom(self.linksByPeerID, q) :: p != q && (p in self.linksByPeerID) && (q in self.linksByPeerID) && len(self.linksByPeerID[p]) > 0 && len(self.linksByPeerID[q]) > 0 ==> sliceobj(self.linksByPeerID[p]) != sliceobj(self.linksByPeerID[q])
+// (e): every links entry is listed under its remote peer.
+//@ lockinv Controller.bcast: forall u uint64 trigger dom(self.links, u) :: (u in self.links) ==> (self.links[u].lnk.GetRemotePeer() in self.linksByPeerID) && exists i int :: 0 <= i && i < len(self.linksByPeerID[self.links[u].lnk.GetRemotePeer()]) && self.linksByPeerID[self.links[u].lnk.GetRemotePeer()][i] == self.links[u]
+
+// flushEstablishedLink (lock held by the caller): removes exactly el's entry from links; every other key is untouched;
+// el is listed under no peer afterwards; (b)-(d) are kept (the back reference (b) is required only of the other links).
 //@ func (*Controller).flushEstablishedLink
-//@   requires held(c.bcast) && el != nil && el.lnk != nil && el.di != nil && c.links != nil && c.linksByPeerID != nil
+//@   requires held(c.bcast) && el != nil && structobj(el) && el.lnk != nil && el.di != nil && c.links != nil && c.linksByPeerID != nil
+//@   requires (el.lnk.GetUUID() in c.links) ==> c.links[el.lnk.GetUUID()] == el
+//@   requires forall p string, i int trigger c.linksByPeerID[p][i] :: (p in c.linksByPeerID) && 0 <= i && i < len(c.linksByPeerID[p]) ==> byPeerElem(c, p, i) && (c.linksByPeerID[p][i] != el ==> byPeerBack(c, p, i))
+//@   requires forall p string, i int, j int trigger c.linksByPeerID[p][i], c.linksByPeerID[p][j] :: (p in c.linksByPeerID) && 0 <= i && i < j && j < len(c.linksByPeerID[p]) ==> c.linksByPeerID[p][i] != c.linksByPeerID[p][j]
+//@   requires forall p string, q string trigger dom(c.linksByPeerID, p), dom(c.linksByPeerID, q) :: p != q && (p in c.linksByPeerID) && (q in c.linksByPeerID) && len(c.linksByPeerID[p]) > 0 && len(c.linksByPeerID[q]) > 0 ==> sliceobj(c.linksByPeerID[p]) != sliceobj(c.linksByPeerID[q])
+//@   requires forall u uint64 trigger dom(c.links, u) :: (u in c.links) && u != el.lnk.GetUUID() ==> (c.links[u].lnk.GetRemotePeer() in c.linksByPeerID) && exists i int :: 0 <= i && i < len(c.linksByPeerID[c.links[u].lnk.GetRemotePeer()]) && c.linksByPeerID[c.links[u].lnk.GetRemotePeer()][i] == c.links[u]
+//@   requires forall u uint64 trigger dom(c.links, u) :: (u in c.links) ==> c.links[u] != nil && structobj(c.links[u]) && c.links[u].lnk != nil && c.links[u].lnk.GetUUID() == u
 //@   modifies c.links, c.linksByPeerID, c.linksByPeerID[el.lnk.GetRemotePeer()]
+//@   loop 1 invariant forall j int trigger c.linksByPeerID[el.lnk.GetRemotePeer()][j] :: 0 <= j && j <= rangeindex ==> c.linksByPeerID[el.lnk.GetRemotePeer()][j] != el
+//@   assert at exit: (el.lnk.GetRemotePeer() in c.linksByPeerID) ==> forall i int trigger old(c.linksByPeerID[el.lnk.GetRemotePeer()][i]) :: 0 <= i && i < len(c.linksByPeerID[el.lnk.GetRemotePeer()]) ==> c.linksByPeerID[el.lnk.GetRemotePeer()][i] == old(c.linksByPeerID[el.lnk.GetRemotePeer()][i]) || old(c.linksByPeerID[el.lnk.GetRemotePeer()][i]) == el
+//@   assert at exit: old(el.lnk.GetRemotePeer() in c.linksByPeerID) && old(len(c.linksByPeerID[el.lnk.GetRemotePeer()])) > 0 && old(c.linksByPeerID[el.lnk.GetRemotePeer()][len(c.linksByPeerID[el.lnk.GetRemotePeer()])-1]) != el ==> (el.lnk.GetRemotePeer() in c.linksByPeerID) && exists j int trigger c.linksByPeerID[el.lnk.GetRemotePeer()][j] :: 0 <= j && j < len(c.linksByPeerID[el.lnk.GetRemotePeer()]) && c.linksByPeerID[el.lnk.GetRemotePeer()][j] == old(c.linksByPeerID[el.lnk.GetRemotePeer()][len(c.linksByPeerID[el.lnk.GetRemotePeer()])-1])
 //@   ensures !(el.lnk.GetUUID() in c.links)
 //@   ensures forall u uint64 trigger dom(c.links, u) :: u != el.lnk.GetUUID() ==> ((u in c.links) <==> old(u in c.links)) && c.links[u] == old(c.links[u])
+//@   ensures forall p string, i int trigger c.linksByPeerID[p][i] :: (p in c.linksByPeerID) && 0 <= i && i < len(c.linksByPeerID[p]) ==> byPeerElem(c, p, i) && byPeerBack(c, p, i) && c.linksByPeerID[p][i] != el
+//@   ensures forall p string, i int, j int trigger c.linksByPeerID[p][i], c.linksByPeerID[p][j] :: (p in c.linksByPeerID) && 0 <= i && i < j && j < len(c.linksByPeerID[p]) ==> c.linksByPeerID[p][i] != c.linksByPeerID[p][j]
+//@   ensures forall p string, q string trigger dom(c.linksByPeerID, p), dom(c.linksByPeerID, q) :: p != q && (p in c.linksByPeerID) && (q in c.linksByPeerID) && len(c.linksByPeerID[p]) > 0 && len(c.linksByPeerID[q]) > 0 ==> sliceobj(c.linksByPeerID[p]) != sliceobj(c.linksByPeerID[q])
+//@   ensures forall u uint64 trigger dom(c.links, u) :: (u in c.links) ==> (c.links[u].lnk.GetRemotePeer() in c.linksByPeerID) && exists i int :: 0 <= i && i < len(c.linksByPeerID[c.links[u].lnk.GetRemotePeer()]) && c.linksByPeerID[c.links[u].lnk.GetRemotePeer()][i] == c.links[u]
 //@   ensures held(c.bcast)
 
 // Losing a link removes only entries that hold that very link: a newer link that replaced it
@@ -98,6 +124,12 @@ package transport_controller
 //@ func (*transportHandler).HandleLinkEstablished
 //@   noframe
 //@   requires h.c != nil && lnk != nil && h.c.bus != nil && h.c.le != nil && h.tpt != nil
+//@   assert at call newMountedLink: forall u uint64 trigger dom(h.c.links, u) :: (u in h.c.links) && u != luuid ==> (h.c.links[u].lnk.GetRemotePeer() in h.c.linksByPeerID) && exists i int :: 0 <= i && i < len(h.c.linksByPeerID[h.c.links[u].lnk.GetRemotePeer()]) && h.c.linksByPeerID[h.c.links[u].lnk.GetRemotePeer()][i] == h.c.links[u]
+//@   assert at call (*Entry).Info: forall u uint64 trigger dom(h.c.links, u) :: u != luuid ==> ((u in h.c.links) <==> atcall(newMountedLink, u in h.c.links)) && h.c.links[u] == atcall(newMountedLink, h.c.links[u])
+//@   assert at call (*Entry).Info: forall p string, i int trigger atcall(newMountedLink, h.c.linksByPeerID[p][i]) :: atcall(newMountedLink, (p in h.c.linksByPeerID) && 0 <= i && i < len(h.c.linksByPeerID[p])) ==> (p in h.c.linksByPeerID) && i < len(h.c.linksByPeerID[p]) && h.c.linksByPeerID[p][i] == atcall(newMountedLink, h.c.linksByPeerID[p][i])
+//@   assert at call (*Entry).Info: forall u uint64 trigger dom(h.c.links, u) :: (u in h.c.links) && u != luuid ==> h.c.links[u].lnk == atcall(newMountedLink, h.c.links[u].lnk) && (h.c.links[u].lnk.GetRemotePeer() in h.c.linksByPeerID)
+//@   assert at call (*Entry).Info: forall u uint64 trigger dom(h.c.links, u) :: (u in h.c.links) && u != luuid ==> (h.c.links[u].lnk.GetRemotePeer() in h.c.linksByPeerID) && exists i int :: 0 <= i && i < len(h.c.linksByPeerID[h.c.links[u].lnk.GetRemotePeer()]) && h.c.linksByPeerID[h.c.links[u].lnk.GetRemotePeer()][i] == h.c.links[u]
+//@   assert at call (*Entry).Info: forall u uint64 trigger dom(h.c.links, u) :: (u in h.c.links) && u == luuid ==> (h.c.links[u].lnk.GetRemotePeer() in h.c.linksByPeerID) && exists i int :: 0 <= i && i < len(h.c.linksByPeerID[h.c.links[u].lnk.GetRemotePeer()]) && h.c.linksByPeerID[h.c.links[u].lnk.GetRemotePeer()][i] == h.c.links[u]
 //@   cs Controller.bcast ensures forall u uint64 trigger dom(self.links, u) :: u != lnk.GetUUID() ==> ((u in self.links) <==> old(u in self.links)) && self.links[u] == old(self.links[u])
 //@   cs Controller.bcast ensures (lnk.GetUUID() in self.links) && (!old(lnk.GetUUID() in self.links) || self.links[lnk.GetUUID()] != old(self.links[lnk.GetUUID()])) ==> self.links[lnk.GetUUID()].lnk == lnk
 //@   cs Controller.bcast ensures lnk.GetRemotePeer() == old(self.peerID) ==> ((lnk.GetUUID() in self.links) <==> old(lnk.GetUUID() in self.links)) && self.links[lnk.GetUUID()] == old(self.links[lnk.GetUUID()])
